@@ -140,6 +140,7 @@ class _Unroller:
         self.count = 0
         self.sites: list[str] = []
         self.local_tables: dict[str, ast.expr] = {}
+        self.fn_stores: set[str] = set()
 
     # ---- rows of an iterable, as syntax
     def _display(self, modname: str, imports, e: ast.expr, shadowed: set[str]):
@@ -160,6 +161,19 @@ class _Unroller:
         return None
 
     def _rows(self, modname: str, imports, it: ast.expr, shadowed: set[str]):
+        # zip(T1, T2, ..) / enumerate(T) over constant tables: the rows are the tuples these produce
+        if isinstance(it, ast.Call) and isinstance(it.func, ast.Name) and it.func.id in ("zip", "enumerate") and it.func.id not in shadowed and it.args \
+                and not any(isinstance(a, ast.Starred) for a in it.args) and all(k.arg == "strict" for k in it.keywords):
+            cols = [self._rows(modname, imports, a, shadowed) for a in it.args]
+            if any(c is None for c in cols):
+                return None
+            if it.func.id == "enumerate":
+                if len(cols) != 1 or it.keywords:
+                    return None
+                return [ast.Tuple(elts=[ast.Constant(value=i), r], ctx=ast.Load()) for i, r in enumerate(cols[0])]
+            if it.keywords and len({len(c) for c in cols}) != 1:
+                return None  # strict=True with tables of different length raises
+            return [ast.Tuple(elts=list(r), ctx=ast.Load()) for r in zip(*cols)]
         how = None
         if isinstance(it, ast.Call) and isinstance(it.func, ast.Attribute) and it.func.attr in ("items", "keys", "values") and not it.args and not it.keywords:
             how, it = it.func.attr, it.func.value
@@ -232,6 +246,41 @@ class _Unroller:
             for x in ast.walk(bind.value):
                 ast.copy_location(x, loop.target) if not hasattr(x, "lineno") else None
             body = [_Jumps(blk).visit(st) for st in _copy_body(loop.body)]
+            # a loop variable bound to a constant of the row (and not assigned in the body) is read as that constant: the
+            # copy of the body then says `if val in ("y", "yes"): x = 1`, not `if val in words: x = truth`
+            subst = {}
+            pairs = [(loop.target, row)]
+            while pairs:
+                t_, r_ = pairs.pop()
+                if isinstance(t_, ast.Name):
+                    if _plain(r_, False) or (isinstance(r_, ast.Name) and r_.id not in self.fn_stores):
+                        subst[t_.id] = r_
+                elif isinstance(t_, (ast.Tuple, ast.List)) and isinstance(r_, (ast.Tuple, ast.List)) and len(t_.elts) == len(r_.elts) \
+                        and not any(isinstance(x, ast.Starred) for x in t_.elts):
+                    pairs.extend(zip(t_.elts, r_.elts))
+            stored = {x.id for st in loop.body for x in ast.walk(st) if isinstance(x, ast.Name) and isinstance(x.ctx, (ast.Store, ast.Del))}
+            stored |= {x.target.id for st in loop.body for x in ast.walk(st) if isinstance(x, ast.NamedExpr) and isinstance(x.target, ast.Name)}
+            subst = {k: v for k, v in subst.items() if k not in stored}
+            if subst:
+                class _Sub(ast.NodeTransformer):
+                    def visit_Name(self, nd):
+                        if isinstance(nd.ctx, ast.Load) and nd.id in subst:
+                            return ast.copy_location(copy.deepcopy(subst[nd.id]), nd)
+                        return nd
+
+                    def visit_Lambda(self, nd):
+                        return nd
+
+                    visit_FunctionDef = visit_AsyncFunctionDef = visit_ClassDef = visit_Lambda
+
+                    def generic_visit(self, nd):
+                        blk_ = getattr(nd, "block", None)
+                        r = super().generic_visit(nd)
+                        if blk_ is not None:
+                            r.block = blk_
+                        return r
+
+                body = [_Sub().visit(st) for st in body]
             blk.body = [bind] + body
             ast.fix_missing_locations(blk)
             for x in ast.walk(blk):
@@ -302,10 +351,11 @@ class _Unroller:
                     sh.add(x.id)
                 elif isinstance(x, ast.arg):
                     sh.add(x.arg)
-            saved = self.local_tables
+            saved, saved_st = self.local_tables, self.fn_stores
             self.local_tables = _local_tables(st)
+            self.fn_stores = sh
             st.body = self._body(modname, imports, st.body, sh)
-            self.local_tables = saved
+            self.local_tables, self.fn_stores = saved, saved_st
             return
         for field in ("body", "orelse", "finalbody"):
             b = getattr(st, field, None)
